@@ -148,6 +148,35 @@ def block_raises(body):
 # --------------------------------------------------------------------------------------
 # program model
 # --------------------------------------------------------------------------------------
+def bound_args(callee_node, call, skip_first=False):
+    """{parameter name: rendered argument} of `call` against the signature of the def `callee_node`; parameters not given take
+    their rendered default; None when the call cannot be bound statically (star arguments, unknown keyword, too many)."""
+    a = callee_node.args
+    pos = [x.arg for x in a.posonlyargs + a.args]
+    if skip_first:
+        pos = pos[1:]
+    defaults = {}
+    dl = list(a.defaults)
+    for name, d in zip(pos[len(pos) - len(dl):] if dl else [], dl):
+        defaults[name] = unparse(d)
+    for x, d in zip(a.kwonlyargs, a.kw_defaults):
+        if d is not None:
+            defaults[x.arg] = unparse(d)
+    if any(isinstance(x, ast.Starred) for x in call.args) or any(k.arg is None for k in call.keywords):
+        return None
+    if len(call.args) > len(pos) and not a.vararg:
+        return None
+    out = dict(defaults)
+    for name, v in zip(pos, call.args):
+        out[name] = unparse(v)
+    known = set(pos) | {x.arg for x in a.kwonlyargs}
+    for k in call.keywords:
+        if k.arg not in known and not a.kwarg:
+            return None
+        out[k.arg] = unparse(k.value)
+    return out
+
+
 class ModuleInfo:
     def __init__(self, name, path, relpath, source):
         self.name = name
@@ -231,7 +260,9 @@ class Program:
         if normalise and not os.environ.get("VERIF_NO_NORMALISE"):
             from . import inline
 
+            inline.undo_attribute_renames(self)
             inline.undo_renames(self)
+            inline.undo_attribute_renames(self)
             inline.normalise(self)
 
     def _reindex(self):
